@@ -5,7 +5,11 @@
         ","  ";"  "="  "q" (double quote)  "b" (backslash)  "k" (key letter)  "v" (value character)
    plus the percent-escapes of the delimiters as single symbols
         "E," = %2C   "E;" = %3B   "E=" = %3D   "Eq" = %22   "Eb" = %5C        (upper or lower case hex)
-   which are ORDINARY VALUE CHARACTERS: a percent-escape never separates elements or pairs, never opens or closes a
+   and "w", one whitespace character (space or tab).  Inside a quoted value "w" is an ordinary character (a DN such as
+   "CN=John Smith, O=x"); directly before a key it is optional white space after the "," / ";" that precedes it (HTTP
+   list syntax, what a proxy that joins two header lines with ", " produces) -- a header using that is still
+   grammar-valid but judged with the one-sided clauses only ("valid_ows"); anywhere else it is outside the grammar.
+   The percent-escapes are ORDINARY VALUE CHARACTERS: a percent-escape never separates elements or pairs, never opens or closes a
    quoted value and never escapes anything, in whatever field it occurs (Cert/URI/By are URL-decoded only after the
    header has been split).  The grammar (Envoy XFCC) is defined on the characters themselves, by a left-to-right scanner:
 
@@ -40,14 +44,16 @@ Tok(ch, i) == IF Letter(ch) THEN ToString(i) ELSE IF ch \in Esc THEN EscTok(ch) 
 Add(val, ch, i) == IF ch = "Eb" THEN val ELSE Append(val, Tok(ch, i))      \* value after one more ordinary character
 
 \* ------------------------------------------------------------------ the scanner
-St0 == [ok |-> TRUE, mode |-> "key0", elems |-> <<>>, pairs |-> <<>>, kpos |-> 0, klen |-> 0, val |-> <<>>]
+St0 == [ok |-> TRUE, mode |-> "key0", elems |-> <<>>, pairs |-> <<>>, kpos |-> 0, klen |-> 0, val |-> <<>>, ows |-> FALSE]
 Fail(st)      == [st EXCEPT !.ok = FALSE]
 ClosePair(st) == [st EXCEPT !.pairs = Append(@, [kpos |-> st.kpos, klen |-> st.klen, val |-> st.val]),
                             !.val = <<>>, !.mode = "key0"]
 CloseElem(st) == LET p == ClosePair(st) IN [p EXCEPT !.elems = Append(@, p.pairs), !.pairs = <<>>]
 
 Step(st, ch, i) ==
-  CASE st.mode = "key0" -> IF ch = "k" THEN [st EXCEPT !.mode = "key", !.kpos = i, !.klen = 1] ELSE Fail(st)
+  CASE st.mode = "key0" -> IF ch = "k" THEN [st EXCEPT !.mode = "key", !.kpos = i, !.klen = 1]
+                           ELSE IF ch = "w" THEN [st EXCEPT !.ows = TRUE]              \* optional white space before a key
+                           ELSE Fail(st)
     [] st.mode = "key"  -> IF ch = "k" THEN [st EXCEPT !.klen = @ + 1]
                            ELSE IF ch = "=" THEN [st EXCEPT !.mode = "val0", !.val = <<>>]
                            ELSE Fail(st)
@@ -72,8 +78,8 @@ Step(st, ch, i) ==
 RECURSIVE Scan(_, _, _)
 Scan(s, i, st) == IF ~st.ok \/ i > Len(s) THEN st ELSE Scan(s, i + 1, Step(st, s[i], i))
 Parse(s) == LET st == Scan(s, 1, St0) IN
-            IF st.ok /\ st.mode \in {"val0", "uval", "qend"} THEN [ok |-> TRUE, elems |-> CloseElem(st).elems]
-            ELSE [ok |-> FALSE, elems |-> <<>>]
+            IF st.ok /\ st.mode \in {"val0", "uval", "qend"} THEN [ok |-> TRUE, elems |-> CloseElem(st).elems, ows |-> st.ows]
+            ELSE [ok |-> FALSE, elems |-> <<>>, ows |-> FALSE]
 
 \* ------------------------------------------------------------------ case space
 RECURSIVE StrUpToA(_, _)
@@ -101,9 +107,12 @@ E1 == {PairOf(v) : v \in ValsA}
 E2 == {PairOf(a) \o <<";">> \o PairOf(b) : a \in ValsB, b \in ValsB}
 Elems == E1 \cup E2
 E3 == {PairOf(<<"v">>), PairOf(<<"q", "v", ",", "v", "q">>), PairOf(<<"q", "b", "q", "q">>)}
+\* white space: inside quoted values (interior and at the edges), and as optional space after a separator
+EW == {PairOf(<<"q", "v", "w", "v", "q">>), PairOf(<<"q", "w", "v", ",", "w", "v", "w", "q">>), PairOf(<<"v">>)}
 Family == IF FamilyDepth = 0 THEN {}
           ELSE Elems \cup {a \o <<",">> \o b : a \in Elems, b \in Elems}
                \cup {a \o <<",">> \o b \o <<",">> \o c : a \in E3, b \in E3, c \in E3}    \* first / middle / last differ
+               \cup EW \cup {a \o <<",", "w">> \o b : a \in EW, b \in EW} \cup {a \o <<";", "w">> \o b : a \in EW, b \in EW}
                \cup (IF FamilyDepth >= 2 THEN {a \o <<",">> \o b \o <<",">> \o c : a \in E1, b \in E2, c \in E1} ELSE {})
 
 KeyedTails == {<<"k", "=">> \o t : t \in StrUpTo(TailLen) \cup StrUpToA(EscTailLen, Alphabet \cup EscAlphabet)}
@@ -113,7 +122,7 @@ OnlyCommas(s) == Len(s) >= 1 /\ \A i \in 1..Len(s) : s[i] = ","
 ClassP(c, P) == IF c.k = "absent" THEN "absent"
                 ELSE IF c.s = <<>> THEN "emptystr"
                 ELSE IF OnlyCommas(c.s) THEN "noelem"
-                ELSE IF P.ok THEN "valid" ELSE "invalid"
+                ELSE IF P.ok THEN (IF P.ows THEN "valid_ows" ELSE "valid") ELSE "invalid"
 Class(c) == ClassP(c, Parse(c.s))
 Expected(c) == LET P == Parse(c.s) IN [cls |-> ClassP(c, P), elems |-> P.elems]
 
@@ -127,7 +136,7 @@ QState(s, i) == IF i = 1 THEN "out"
 Top(s, d) == {i \in 1..Len(s) : s[i] = d /\ QState(s, i) = "out"}
 Valid(c) == c.k = "str" /\ Parse(c.s).ok
 NPairs(es) == LET RECURSIVE Sum(_) Sum(j) == IF j = 0 THEN 0 ELSE Len(es[j]) + Sum(j - 1) IN Sum(Len(es))
-IsPos(t) == t \notin {",", ";", "=", "q", "b", "?"}
+IsPos(t) == t \notin {",", ";", "=", "q", "b", "w", "?"}
 ValPos(p) == {p.val[j] : j \in {x \in 1..Len(p.val) : IsPos(p.val[x])}}
 KeyPos(p) == {ToString(i) : i \in p.kpos..(p.kpos + p.klen - 1)}
 ElemPos(e) == UNION {ValPos(e[j]) \cup KeyPos(e[j]) : j \in 1..Len(e)}
@@ -170,9 +179,17 @@ DnsSeq(e, o) == LET idx == {x \in 1..Len(e) : NameOf(e[x], o) = "dns"}
                 IN Build(1)
 \* a single-valued field: absent/empty when the element has no such pair; otherwise the value of one of its pairs
 \* (the statement is silent on duplicate keys: any of them is admissible)
-FieldOK(e, n, f, o) == LET vs == Vals(e, n, o) IN
+\* white space at the edges of a value may or may not be kept (the statement does not say); interior white space is content
+RECURSIVE TrimL(_)
+TrimL(v) == IF v # <<>> /\ v[1] = "w" THEN TrimL(Tail(v)) ELSE v
+RECURSIVE TrimR(_)
+TrimR(v) == IF v # <<>> /\ v[Len(v)] = "w" THEN TrimR(SubSeq(v, 1, Len(v) - 1)) ELSE v
+Trim(v) == TrimR(TrimL(v))
+RECURSIVE TrimAll(_)
+TrimAll(q) == IF q = <<>> THEN <<>> ELSE <<Trim(Head(q))>> \o TrimAll(Tail(q))
+FieldOK(e, n, f, o) == LET vs == {Trim(v) : v \in Vals(e, n, o)} IN
                        IF vs = {} THEN f = <<>> \/ f = << <<>> >>
-                       ELSE (f # <<>> /\ f[1] \in vs) \/ (f = <<>> /\ <<>> \in vs)
+                       ELSE (f # <<>> /\ Trim(f[1]) \in vs) \/ (f = <<>> /\ <<>> \in vs)
 Range(q) == {q[j] : j \in 1..Len(q)}
 PosIn(v) == {v[j] : j \in {x \in 1..Len(v) : IsPos(v[x])}}
 
@@ -195,9 +212,16 @@ One(c, P, cls, o, r, sel) ==
     IN   Bad("ValidAccepted",            r.vout = "ok" /\ r.dout = "ok")
     \cup Bad("OnlyFromSelectedElement",  (r.vout = "ok" => seenV \subseteq mine) /\ (r.dout = "ok" => seenD \subseteq mine))
     \cup Bad("FieldsOfSelectedElement",  r.vout = "ok" => /\ \A n \in Single : FieldOK(e, n, r.el[n], o)
-                                                          /\ r.el.dns = DnsSeq(e, o))
+                                                          /\ TrimAll(r.el.dns) = TrimAll(DnsSeq(e, o)))
     \cup Bad("ClaimsOfSelectedElement",  r.dout = "ok" => /\ \A n \in Single \ {"cert"} : FieldOK(e, n, r.df[n], o)
-                                                          /\ (r.df.dns = DnsSeq(e, o) \/ (r.df.dns = <<>> /\ DnsSeq(e, o) = <<>>)))
+                                                          /\ TrimAll(r.df.dns) = TrimAll(DnsSeq(e, o)))
+    \cup Bad("PrincipalFromSubject",     r.dout = "ok" => PosIn(r.df.principal) \subseteq UNION {PosIn(v) : v \in Vals(e, "subject", o)})
+  ELSE IF cls = "valid_ows" THEN     \* optional white space after separators: only the one-sided clauses
+    LET e == IF sel = "first" THEN P.elems[1] ELSE P.elems[Len(P.elems)]
+        mine == ElemPos(e)
+        seenV == UNION {FieldPos(r.el[n]) : n \in Single} \cup DnsPos(r.el.dns)
+        seenD == UNION {FieldPos(r.df[n]) : n \in Single \ {"cert"}} \cup DnsPos(r.df.dns) \cup PosIn(r.df.principal)
+    IN   Bad("OnlyFromSelectedElement",  (r.vout = "ok" => seenV \subseteq mine) /\ (r.dout = "ok" => seenD \subseteq mine))
     \cup Bad("PrincipalFromSubject",     r.dout = "ok" => PosIn(r.df.principal) \subseteq UNION {PosIn(v) : v \in Vals(e, "subject", o)})
   ELSE {}        \* "invalid": only "never raises anything but AuthFailure", decided by the driver
 
